@@ -11,8 +11,10 @@ large scenarios.  After EVERY action the projection of the real state (requests 
 maps with event / set / connector identities, every connector's state and call counts, the length of the loop's
 ready queue) is compared with the model state, and the clauses are judged on the REAL observations.
 
-The specification is parameterised by repairs (`Fixes`); the as-is code conforms to Fixes = {}.  An implementation
-is accepted if it conforms to one variant; the statement's clauses are judged on the real behaviour in any case.
+The specification is parameterised by repairs (`Fixes`); /repo contains the six repairs and conforms to
+Fixes = {A..F} (the manager before the repairs conformed to Fixes = {}).  An implementation is followed in lock step
+if it conforms to one variant; the statement's clauses are judged on the real behaviour in any case, so a tree
+that loses a repair fails with the clause violation that repair had cured.
 """
 from __future__ import annotations
 
@@ -377,7 +379,11 @@ def signature(world, clause, info, post):
         for w, i in info["pairs"]:
             x, wc = post["conn"][i - 1], post["conn"][w - 1]
             older = any(c["name"] == wc["name"] and k + 1 != w and c["kind"] != "future" and _gone(c) for k, c in enumerate(post["conn"]))
-            if older:
+            if wc.get("uc", 0) > 0:
+                # the live wrapper itself was handed to connector.undeploy (it was still deploying): an undeploy request that
+                # had waited for the previous incarnation took the re-created one for its own (not the stale tail loop)
+                out.add("wrapped-undeployed-under-live-wrapper:wrapper-undeployed-while-deploying")
+            elif older:
                 out.add("wrapped-undeployed-under-live-wrapper:stale-undeploy-of-redeployed-wrapper")
             else:
                 out.add("wrapped-undeployed-under-live-wrapper:other:%s-inner:wrapper-%s" % (x["kind"], wc["state"]))
